@@ -33,15 +33,18 @@ pub struct Tuple {
     /// the input is named as a PATH that is not a regular file: `/dev/stdin` backed by a pipe the harness feeds (what
     /// `gen | fml run /dev/stdin`, a FIFO or bash's <(...) look like to the tool: st_size 0, not seekable)
     pub dev_stdin_pipe: bool,
+    /// Some(schedule): `fml compile x.json -o x.bc` runs as two live invocations of the same command under the cooperative
+    /// scheduler; the bytes in x.bc may not depend on who went when
+    pub overlap_compile: Option<String>,
 }
 
 impl Tuple {
     pub fn baseline() -> Tuple {
-        Tuple { profile: Profile::Debug, hash_seed: 1, clock: None, junk: 0, env: vec![], aslr: false, via_stdin: false, argv0: None, nested_cwd: false, stale_outputs: false, io_plan: String::new(), dev_stdin_pipe: false }
+        Tuple { profile: Profile::Debug, hash_seed: 1, clock: None, junk: 0, env: vec![], aslr: false, via_stdin: false, argv0: None, nested_cwd: false, stale_outputs: false, io_plan: String::new(), dev_stdin_pipe: false, overlap_compile: None }
     }
     pub fn to_json(&self) -> Value {
         json!({"profile": self.profile.name(), "hash_seed": self.hash_seed, "clock": self.clock, "junk": self.junk, "env": self.env,
-               "aslr": self.aslr, "via_stdin": self.via_stdin, "argv0": self.argv0, "nested_cwd": self.nested_cwd, "stale_outputs": self.stale_outputs, "io_plan": self.io_plan, "dev_stdin_pipe": self.dev_stdin_pipe})
+               "aslr": self.aslr, "via_stdin": self.via_stdin, "argv0": self.argv0, "nested_cwd": self.nested_cwd, "stale_outputs": self.stale_outputs, "io_plan": self.io_plan, "dev_stdin_pipe": self.dev_stdin_pipe, "overlap_compile": self.overlap_compile})
     }
     pub fn from_json(v: &Value) -> Option<Tuple> {
         let mut env = Vec::new();
@@ -61,6 +64,7 @@ impl Tuple {
             stale_outputs: v.get("stale_outputs").and_then(|x| x.as_bool()).unwrap_or(false),
             io_plan: v.get("io_plan").and_then(|x| x.as_str()).unwrap_or("").to_string(),
             dev_stdin_pipe: v.get("dev_stdin_pipe").and_then(|x| x.as_bool()).unwrap_or(false),
+            overlap_compile: v.get("overlap_compile").and_then(|x| x.as_str()).map(|s| s.to_string()),
         })
     }
     pub fn random(rng: &mut Rng) -> Tuple {
@@ -101,6 +105,7 @@ impl Tuple {
                 _ => String::new(),
             },
             dev_stdin_pipe: rng.below(8) == 0,
+            overlap_compile: if rng.below(8) == 0 { Some((0..10).map(|_| if rng.coin() { '1' } else { '0' }).collect()) } else { None },
         }
     }
 }
@@ -222,7 +227,15 @@ pub fn observe(source: &str, t: &Tuple) -> Obs {
             c.stdin = In::File("x.json".into());
             c.stdout = Out::File("x.bc".into());
         }
-        let r = run_child(&dir, &c);
+        let r = match &t.overlap_compile {
+            Some(sched) if !t.via_stdin && !dsp && t.io_plan.is_empty() => {
+                let choices: Vec<u8> = sched.bytes().map(|b| b.wrapping_sub(b'0')).collect();
+                let (ra, rb, _) = super::proc::run_scheduled_pair(&dir, &c, &c, "openw,writef,rename,flock,unlink", &choices);
+                children += 1;
+                if ra.exit.is_success() { rb } else { ra }
+            }
+            _ => run_child(&dir, &c),
+        };
         children += 1;
         note_trace(&r.trace);
         let out = read_output(dir.join("x.bc")).unwrap_or_default();
@@ -404,6 +417,7 @@ fn varying_fields(a: &Tuple, b: &Tuple) -> String {
     if a.stale_outputs != b.stale_outputs { v.push("stale_outputs"); }
     if a.io_plan != b.io_plan { v.push("io_plan"); }
     if a.dev_stdin_pipe != b.dev_stdin_pipe { v.push("dev_stdin_pipe"); }
+    if a.overlap_compile != b.overlap_compile { v.push("overlap_compile"); }
     v.join("+")
 }
 
@@ -433,6 +447,7 @@ pub fn minimise(c: &Case, oracle: &str) -> Case {
     try_field!(stale_outputs);
     try_field!(io_plan);
     try_field!(dev_stdin_pipe);
+    try_field!(overlap_compile);
     try_field!(argv0);
     try_field!(nested_cwd);
     try_field!(via_stdin);
